@@ -56,7 +56,11 @@ func (s *supervisor) start() {
 	}
 	def, err := os.ReadFile(filepath.Join(s.repo, "proxy", "metrics.yaml"))
 	must(err)
-	must(os.WriteFile(l.defMet, def, 0o644))
+	// the metrics configuration loaded at start-up is the repo's built-in file WITHOUT the last entry of
+	// general_metrics.metric_value, so that a payload can carry a file that EXTENDS the loaded configuration
+	// (same labels, same leading entries, one more): the full built-in file (metrics token n<k>)
+	must(os.WriteFile(l.defMet, reduceMetrics(def), 0o644))
+	must(os.WriteFile(filepath.Join(filepath.Dir(l.defMet), "metrics.full.yaml"), def, 0o644))
 	must(os.WriteFile(filepath.Join(s.root, "discovery.json"), []byte("{}"), 0o644))
 	env := append(os.Environ(),
 		childEnv+"=1", rootEnv+"="+s.root,
@@ -302,4 +306,42 @@ func childLoop() {
 			return
 		}
 	}
+}
+
+// reduceMetrics drops the last `- name:` entry of general_metrics.metric_value from a metrics.yaml.
+func reduceMetrics(full []byte) []byte {
+	lines := strings.Split(string(full), "\n")
+	start, end := -1, len(lines)
+	for i, l := range lines {
+		if strings.HasPrefix(strings.TrimSpace(l), "metric_value:") && start < 0 {
+			start = i
+			continue
+		}
+		if start >= 0 && l != "" && !strings.HasPrefix(l, " ") && !strings.HasPrefix(l, "#") {
+			end = i // next top-level key
+			break
+		}
+	}
+	if start < 0 {
+		return full
+	}
+	last := -1
+	for i := start + 1; i < end; i++ {
+		if strings.HasPrefix(strings.TrimSpace(lines[i]), "- name:") {
+			last = i
+		}
+	}
+	if last < 0 {
+		return full
+	}
+	// the entry runs to the next blank line / end of the section
+	stop := end
+	for i := last + 1; i < end; i++ {
+		if strings.TrimSpace(lines[i]) == "" {
+			stop = i
+			break
+		}
+	}
+	out := append(append([]string{}, lines[:last]...), lines[stop:]...)
+	return []byte(strings.Join(out, "\n"))
 }
